@@ -224,6 +224,11 @@ func propC07(r *Run) {
 					fmt.Sprintf("alice:true:%d", now+1), fmt.Sprintf("alice:true:%d", now+2), fmt.Sprintf("alice:true:%d", now+100000), fmt.Sprintf("alice:true:%d", now-int64(lts[fi]/time.Second)-2),
 					fmt.Sprintf("alice:TRUE:%d", now), fmt.Sprintf("alice:1:%d", now), fmt.Sprintf("alice:true:%dx", now), fmt.Sprintf("alice:true: %d", now),
 					fmt.Sprintf("alice:true"), "alice", "", fmt.Sprintf("alice:true:%d:extra", now), "alice:true:99999999999999999999", "alice:true:-5", fmt.Sprintf(":true:%d", now),
+					// issue times whose distance from now is a multiple of a large power of two (an age
+					// computed in wrapping nanosecond arithmetic would come out as zero), and the extremes
+					fmt.Sprintf("alice:true:%d", now+(1<<55)), fmt.Sprintf("alice:true:%d", now-(1<<55)), fmt.Sprintf("alice:true:%d", now+(1<<56)), fmt.Sprintf("alice:true:%d", now-(3<<55)),
+					fmt.Sprintf("alice:true:%d", now+(1<<34)), fmt.Sprintf("alice:true:%d", now-(1<<34)), fmt.Sprintf("alice:true:%d", now+(1<<32)), fmt.Sprintf("alice:true:%d", now-(1<<32)),
+					"alice:true:9223372036854775807", "alice:true:-9223372036854775808", fmt.Sprintf("alice:true:%d", now+(1<<62)),
 				} {
 					st, _, nonce, enc := f.sealToken(pt)
 					if st != 200 {
@@ -273,7 +278,7 @@ func propC07(r *Run) {
 				pan    any
 			}
 			var jobs []*job
-			for i := 0; i < 2+r.Choose("nconc", 2); i++ {
+			for i, iN := 0, 2+r.Choose("nconc", 2); i < iN; i++ {
 				t := toks[r.Choose("conc-token", len(toks))]
 				if t.factory < 0 {
 					continue
